@@ -3,14 +3,7 @@ import json, os, sys
 from checklib import *
 import spec_c14
 
-THEOREMS = [
-    "C14_add_correct", "C14_sub_correct", "C14_neg_correct", "C14_mul_correct", "C14_square_correct",
-    "C14_mac_correct", "C14_reduce96_correct", "C14_reduce128_correct", "C14_reduce160_correct",
-    "C14_to_canonical", "C14_add_canonical_u64_correct", "C14_sub_canonical_u64_correct",
-    "C14_add_canonical_u64_refuted_without_precondition", "C14_sub_canonical_u64_refuted_without_precondition",
-    "C14_from_noncanonical_i64_correct", "C14_order_prime", "C14_try_inverse_is_pow", "C14_inverse_correct",
-    "C14_try_inverse_zero", "C14_Fp_field", "C14_ext2_mul_correct", "C14_ext4_mul_correct", "C14_ext5_mul_correct",
-]
+THEOREMS = theorems_of("Props/C14.v", "Props/C14b.v")
 
 def oracle_scan(c, casefile, limit=20):
     """property oracle over the implementation's results; returns (#checked, failures)"""
@@ -29,8 +22,8 @@ def main():
     if a.replay:
         return replay(c, a.replay)
     ok_tr, errs = c.regenerate()
-    ok_mk, log = c.make(["Props/C14.vo", "Model/C14Run.vo"])
-    assumptions = c.audit("Props.C14", THEOREMS) if ok_mk else {}
+    ok_mk, log = c.make(["Props/C14.vo", "Props/C14b.vo", "Model/C14Run.vo"])
+    assumptions = c.audit(["Props.C14", "Props.C14b"], THEOREMS) if ok_mk else {}
     binary = c.build_harness("release")
     counts, mism, total, nchecked, fails, dist = {}, [], (0, 0), 0, [], {}
     samples = []
